@@ -78,9 +78,11 @@ def draw_case(rng: numpy.random.Generator, small: bool = True, force: Optional[d
         keys = list(synth.SYSTEM_INDEPENDENT[system])
     keys = [keys[i] for i in rng.permutation(len(keys))]           # column order is free
     law = "power" if rng.random() < 0.7 else "quadratic"
-    ds = synth.make_dataset(rng, nv=nv, nq=nq, na=na, system=system, keys=keys, lattice=lattice, law=law)
+    static_mesh = force.get("static_mesh", "same" if rng.random() < 0.6 else "shifted")
+    ds = synth.make_dataset(rng, nv=nv, nq=nq, na=na, system=system, keys=keys, lattice=lattice, law=law, static_mesh=static_mesh)
     _lattice_for_system(ds, system)
     n_extra = 0
+    noisy = False
     if system not in (None, "triclinic") and rng.random() < 0.35:
         # "any subset of components that includes what the requested system needs": add one or two components that
         # the symmetry determines (values from the harness' own completion, so the table stays consistent)
@@ -91,6 +93,11 @@ def draw_case(rng: numpy.random.Generator, small: bool = True, force: Optional[d
             ds.static_keys.append("%d%d" % k)
             ds.static_table = numpy.concatenate([ds.static_table, full[k][:, None]], axis=1)
             n_extra += 1
+        if n_extra and rng.random() < 0.5:
+            # redundant components taken "from separate static runs": they disagree with the relations by 0.02-0.12 GPa,
+            # well inside the default residual tolerance; the filling (a least-squares compromise) must still be applied
+            noisy = True
+            ds.static_table[:, -n_extra:] += rng.uniform(0.02, 0.12, size=(nv, n_extra)) * rng.choice([-1.0, 1.0], size=(nv, n_extra))
     # ---- grid settings
     nt = int(force.get("NT", rng.integers(1, 7)))
     dt = float(force.get("DT", [50.0, 100.0, 150.0, 250.0][int(rng.integers(0, 4))]))
@@ -114,7 +121,8 @@ def draw_case(rng: numpy.random.Generator, small: bool = True, force: Optional[d
                "DELTA_P_SAMPLE": dp, "volume_ratio": ratio, "order": 3, "static_only": False})
     ds.settings["elast"]["settings"]["mode_gamma"] = {"interpolator": "lsq_poly",
                                                       "order": int(min(3, max(1, nv - 2)))}
-    desc = {"nv": nv, "nq": nq, "na": na, "system": system, "lattice": lattice, "nkeys": len(ds.static_keys), "redundant_keys": n_extra, "law": law,
+    desc = {"nv": nv, "nq": nq, "na": na, "system": system, "lattice": lattice, "nkeys": len(ds.static_keys), "redundant_keys": n_extra, "redundant_noisy": noisy,
+            "static_mesh": static_mesh, "law": law,
             "NT": nt, "DT": dt, "NTV": ntv, "volume_ratio": ratio, "P_MIN": p_min, "DELTA_P": dp,
             "p_last_est_gpa": p_last_gpa}
     return ds, desc
@@ -370,7 +378,18 @@ def symmetry_fill(system: Optional[str], table: Dict[Tuple[int, int], numpy.ndar
     coef, res, rank, _ = numpy.linalg.lstsq(B[idx, :], cols, rcond=None)
     if rank < B.shape[1]:
         raise ValueError("under-determined table for system " + system)
-    full = B @ coef                                                  # (21, nv)
+    full = B @ coef                                                  # (21, nv): exact invariant completion of a consistent table
+    if numpy.max(numpy.abs(full[idx] - cols)) > 1e-9 * max(1.0, float(numpy.max(numpy.abs(cols)))):
+        # the supplied values contradict the relations (within tolerance): what "the filling" means is then the
+        # least-squares compromise of the supplied values and the relation rows AS WRITTEN in the relations file
+        from harness import fillcommon
+        rows = fillcommon.file_rows(system)
+        sel = numpy.zeros((len(idx), 21)); sel[numpy.arange(len(idx)), idx] = 1.0
+        R = numpy.array([[float(c) for c in co] for co, rhs in rows]); r0 = numpy.array([float(rhs) for co, rhs in rows])
+        if _PAIRS != [(i, j) for i in range(1, 7) for j in range(i, 7)]:
+            raise AssertionError("symbol order")
+        A = numpy.vstack([sel, R]); b = numpy.vstack([cols, numpy.repeat(r0[:, None], cols.shape[1], axis=1)])
+        full = numpy.linalg.lstsq(A, b, rcond=None)[0]
     out = {}
     for n, k in enumerate(_PAIRS):
         if not numpy.all(numpy.abs(full[n]) <= drop_atol):
